@@ -35,6 +35,8 @@ MUTANTS = [
     ("C02", "silent", "periodictable/constants.py", "electron_mass = 5.4857990946e-4", "electron_mass = 5.48579909065e-4", "CODATA 2018 value"),
     # ---- C03
     ("C03", "fire", N, "    sld = 10*number_density * b_c # 1e-6/A^2", "    sld = 100*number_density * b_c # 1e-6/A^2", "wrong factor"),
+    ("C03", "fire", N, "        if element.neutron.b_c is None:\n            return None, None, None\n", "        if not element.neutron.has_sld():\n            return None, None, None\n", "the guard needs the element's own bulk density again (reverse of the fix)"),
+    ("C17", "fire", N, "        if element.neutron.b_c is None:\n            return None, None, None\n", "        if not element.neutron.has_sld():\n            return None, None, None\n", "direct route refuses an atom without bulk density, the calculator does not (reverse of the fix)"),
     ("C03", "silent", N, "    sld = 10*number_density * b_c # 1e-6/A^2", "    sld = number_density * b_c * 10 # 1e-6/A^2", "commuted"),
     ("C03", "fire", N, "        b_c = np.interp(wavelength, self.nsf_table[0], self.nsf_table[1])", "        b_c = np.interp(wavelength, self.nsf_table[0], self.nsf_table[1], left=np.nan)", "no clamping on the left"),
     ("C03", "silent", N, "        b_c = np.interp(wavelength, self.nsf_table[0], self.nsf_table[1])", "        xp_, fp_ = self.nsf_table\n        b_c = np.interp(wavelength, xp_, fp_)", "unpacked table"),
